@@ -804,9 +804,16 @@ func (s *c16Store) put(key, value string) error {
 }
 
 func (s *c16Store) delete(key string) error {
-	deleter := ""
-	if s.deleter != nil && !s.admin && !s.quiet && key == sessionStoreKey(c16ID) {
-		deleter = s.deleter()
+	// who deletes the contested key is read off the caller's stack: a flag set
+	// around the admin handler would also cover deletes that other goroutines (a
+	// connection's teardown) issue while the handler's own delete is under way
+	deleter, admin := "", false
+	if key == sessionStoreKey(c16ID) {
+		buf := make([]byte, 8192)
+		admin = strings.Contains(string(buf[:runtime.Stack(buf, false)]), "httpDeleteSessionHandler")
+		if s.deleter != nil && !admin && !s.quiet {
+			deleter = s.deleter()
+		}
 	}
 	s.ops++
 	s.inflight++
@@ -824,7 +831,7 @@ func (s *c16Store) delete(key string) error {
 	delete(s.data, key)
 	if key == sessionStoreKey(c16ID) {
 		who := "broker"
-		if s.admin {
+		if admin {
 			who = "admin"
 		} else if s.deleter != nil {
 			who = "broker(" + deleter + ")"
